@@ -32,7 +32,7 @@ def curve_ids(cfg):
 
 def expect_violation(ev, mod, cfg, invariant, consts):
     """a model configuration that MUST fail (non-vacuity: the invariant detects the modelled defect)"""
-    r = core.tlc("model/%s.tla" % mod, "model/%s.cfg" % cfg, workers=4, timeout=1200)
+    r = core.tlc("model/%s.tla" % mod, "model/%s.cfg" % cfg, workers=4, timeout=1200, extra=["-noGenerateSpecTE"])
     ev.add_mc(cfg, r, consts + " [expected counterexample: %s]" % invariant)
     rec = next(m for m in reversed(ev.cov["mc_runs"]) if m["spec"] == cfg)
     rec["expected_violation"] = invariant
@@ -95,7 +95,7 @@ def run(tier, seed):
         "completeness_only": [],
         "not_covered": ["CL", "PS/mPS", "vBNN-IBS", "PoK/SoK", "ring signatures (ERS/SMLERS/ETRS)",
                         "homomorphic signatures (CMLHS/MKLHS)"]}
-    ev.assumptions = ["pre-hashed RSA mode is driven with digests of exactly RLC_MD_LEN bytes (its domain)",
+    ev.assumptions = ["pre-hashed RSA mode: the definition admits digests of exactly RLC_MD_LEN bytes (other lengths must be refused)",
                       "hash-to-curve output of cp_bls_ver is bound from the execution (input must equal the message); its correctness is C13",
                       "MD_MAP = SHA-256 (pinned); EC_CUR = PRIME",
                       "RSA moduli of 1024, 1023, 522 and 521 bits, PKCS#1 v1.5 also 488 bits (BN_PRECI = 1024 bounds the size in the pinned build)"]
